@@ -595,6 +595,61 @@ def _site_gather_normal(term):
     return T.subst(term, fn)
 
 
+def _site_witness(gi, wi):
+    """Concrete sizes for which two sets of site selections differ: (env, got sites, wanted sites), or None when none is found
+    or a selection is outside the enumerable form x[:, [el(i) for i in range(lo, stop, step)]]."""
+    import itertools
+    from ..ints import eval_count
+
+    def parts(a):
+        ix = a.args[1]
+        if not (isinstance(ix, tuple) and len(ix) == 2 and tuple(ix[0]) == ("slice", None, None, None) and isinstance(ix[1], tuple) and len(ix[1]) == 3 and ix[1][0] == "advcomp"
+                and isinstance(ix[1][2], tuple) and len(ix[1][2]) == 4 and ix[1][2][0] == "range"):
+            return None
+        el, rg = ix[1][1], ix[1][2]
+        if not all(isinstance(x, (T.Poly, int)) for x in (el, rg[1], rg[2], rg[3])):
+            return None
+        return a.args[0], el, rg[1], rg[2], rg[3]
+
+    ps_g, ps_w = [parts(a) for a in gi], [parts(a) for a in wi]
+    if not ps_g or not ps_w or any(x is None for x in ps_g + ps_w):
+        return None
+    syms = set()
+    for _b, el, lo, hi, st in ps_g + ps_w:
+        for x in (el, lo, hi, st):
+            if isinstance(x, T.Poly):
+                syms |= set(x.syms())
+    loop = {s_ for s_ in syms if s_ == "i" or s_.startswith("i@")}
+    syms = sorted(syms - loop)
+    if len(loop) > 1 or len(syms) > 3:
+        return None
+    lv = next(iter(loop)) if loop else "i"
+
+    def sites(ps, env):
+        out = []
+        for b, el, lo, hi, st in ps:
+            vs = [eval_count(x, env) for x in (lo, hi, st)]
+            if any(v is None or v.denominator != 1 for v in vs) or vs[2] == 0:
+                return None
+            row = []
+            for j in range(int(vs[0]), int(vs[1]), int(vs[2])):
+                v = eval_count(el, dict(env, **{lv: j}))
+                if v is None or v.denominator != 1:
+                    return None
+                row.append(int(v))
+            out.append((repr(b), tuple(row)))
+        return sorted(set(out))
+
+    for vals in itertools.product(range(1, 7), repeat=len(syms)):
+        env = dict(zip(syms, vals))
+        g, w = sites(ps_g, env), sites(ps_w, env)
+        if g is None or w is None:
+            return None
+        if g != w:
+            return env, [r for _b, r in g], [r for _b, r in w]
+    return None
+
+
 def _diag_zz(ck, inst, asite, got, want):
     gi = {a for a in got.all_atoms() if isinstance(a, T.App) and a.op == "index"}
     wi = {a for a in want.all_atoms() if isinstance(a, T.App) and a.op == "index"}
@@ -625,8 +680,15 @@ def _diag_zz(ck, inst, asite, got, want):
         ck.undecided("C08.R3", inst + ":pairs (i, i+c)/L", asite, "the sites are selected through %s; the expected form is %s" % (sorted(repr(a.args[1]) for a in gi), sorted(repr(a.args[1]) for a in wi)))
         return
     if gi != wi:
-        ck.violation("C08.R3", inst + ":pairs (i, i+c)/L", asite, "the interaction pairs sites through %s; expected %s (same distance c on both factors)" % (
-            sorted(repr(a.args[1]) for a in gi), sorted(repr(a.args[1]) for a in wi)))
+        # two spellings of a selection can name the same sites ((i + c % L) for i < L - c is i + c): a difference is reported only
+        # with a witness - a chain length and a distance for which the selected sites differ
+        wit = _site_witness(gi, wi)
+        if wit is None:
+            ck.undecided("C08.R3", inst + ":pairs (i, i+c)/L", asite, "the sites are selected through %s; the expected form is %s; no chain length / distance up to 6 tells them apart" % (
+                sorted(repr(a.args[1]) for a in gi), sorted(repr(a.args[1]) for a in wi)))
+            return
+        ck.violation("C08.R3", inst + ":pairs (i, i+c)/L", asite, "the interaction pairs sites through %s; expected %s (same distance c on both factors); for %s the selected sites are %s, expected %s" % (
+            sorted(repr(a.args[1]) for a in gi), sorted(repr(a.args[1]) for a in wi), wit[0], wit[1], wit[2]))
         return
     d = lin_diff(got, want)
     ck.check(diff_verdict(d), "C08.R3", inst + ":pairs (i, i+c)/L", asite, "ZZ estimator: " + diff_msg(d), got=got, want=want)
